@@ -8,14 +8,16 @@ var Universe = []float64{0, 1, 2, 3, 4, 5, 6, 7, 8, 9, 10, 11, 12, 13, 14, 15, 1
 // the op wrapper T, and the callback catalogue (Go twins in catalogue.go). Sloppy mode on purpose: failed
 // assignments inside catalogue mutations are silent, as in the Go twins.
 const Prelude = `
-var a, it, res, LOG = null;
-function LG(s){ LOG = LOG === null ? s : LOG + ',' + s }
+var a, it, res, LOG = [], LOGN = 0;
+// the event log keeps the first 300 entries and counts the rest (string += is quadratic in this engine)
+function LG(s){ LOGN++; if (LOGN <= 300) PUSH(LOG,s) }
+function LOGTEXT(){ return LOG.join(',') + (LOGN > 300 ? ',+' + (LOGN-300) : '') }
 function PUSH(arr,v){ Object.defineProperty(arr,arr.length,{value:v,writable:true,enumerable:true,configurable:true}) }
 var O1 = {tag:'O1'}, O2 = {tag:'O2'}, O3 = {tag:'O3'}, THROWN = {tag:'THROWN'};
 var N1 = [1,2]; N1.tag = 'N1';
 var N2 = [[3],4]; N2.tag = 'N2';
 var S1 = {tag:'S1', length:2, 0:'x', 1:'y'}; S1[Symbol.isConcatSpreadable] = true;
-var GOPD = Object.getOwnPropertyDescriptor, HOP = function(o,k){ return Object.prototype.hasOwnProperty.call(o,k) };
+var GOPD = Object.getOwnPropertyDescriptor, HOP = Object.hasOwn;
 var UNIVERSE = [0,1,2,3,4,5,6,7,8,9,10,11,12,13,14,15,16,17,18,19,20,4095,4096,4097,4098,4099,4100,65535,65536,2147483647,4294967294,4294967295];
 var AP = Array.prototype, OP = Object.prototype;
 function isIdx(k){ var n = k>>>0; return String(n) === k && n !== 4294967295 }
@@ -43,37 +45,39 @@ function PD(d,depth){
 }
 function EN(e){ if (e instanceof Error) return e.constructor.name; return 'v' + R(e,1) }
 function D(x,d){
-  var ll = LOG;
+  var ll = LOG.length, lln = LOGN;
   var s = Array.isArray(x) ? '[A' : '[O';
   var ld = GOPD(x,'length');
   s += ' L=' + (ld ? (('value' in ld) ? R(ld.value,9) + (ld.writable?'w':'-') : 'acc') : 'none');
   s += Object.isExtensible(x) ? ' X' : ' -';
-  var keys = Reflect.ownKeys(x), ik = [], sk = [];
-  for (var i = 0; i < keys.length; i++) {
-    var k = keys[i];
+  var keys = Reflect.ownKeys(x), sk = [], nk = 0, i, k, c = 0;
+  for (i = 0; i < keys.length; i++) { k = keys[i]; if (typeof k === 'string' && isIdx(k)) nk++ }
+  s += ' K='; // more than 64 own index keys: the first and the last 32 and the count
+  for (i = 0; i < keys.length; i++) {
+    k = keys[i];
     if (typeof k !== 'string' || k === 'length' || k === 'tag') continue;
-    if (isIdx(k)) PUSH(ik,k); else PUSH(sk,k);
+    if (!isIdx(k)) { PUSH(sk,k); continue }
+    if (nk > 64 && c >= 32 && c < nk - 32) { if (c === 32) s += '..(' + nk + ')..;'; c++; continue }
+    c++;
+    s += k + ':' + PD(GOPD(x,k),d) + ';';
   }
-  sk.sort();
-  s += ' K=';
-  for (i = 0; i < ik.length; i++) s += ik[i] + ':' + PD(GOPD(x,ik[i]),d) + ';';
   s += ' S=';
-  for (i = 0; i < sk.length; i++) s += sk[i] + ':' + PD(GOPD(x,sk[i]),d) + ';';
+  if (sk.length) { sk.sort(); for (i = 0; i < sk.length; i++) s += sk[i] + ':' + PD(GOPD(x,sk[i]),d) + ';' }
   if (!d) {
     s += ' H=';
     for (i = 0; i < UNIVERSE.length; i++) {
       var u = UNIVERSE[i];
-      if (HOP(x,u)) continue;
-      try { if (u in x) s += u + ':' + R(x[u],1) + ';' } catch (e) { s += u + ':!' + EN(e) + ';' }
+      if (!(u in x) || HOP(x,u)) continue;
+      try { s += u + ':' + R(x[u],1) + ';' } catch (e) { s += u + ':!' + EN(e) + ';' }
     }
   }
-  LOG = ll;
+  LOG.length = ll; LOGN = lln;
   return s + ']';
 }
 function T(f){
-  LOG = null; var r;
+  LOG = []; LOGN = 0; var r;
   try { res = f(); r = 'ok:' + R(res,0) } catch (e) { res = undefined; r = 'throw:' + EN(e) }
-  return r + ' |' + (LOG === null ? '' : LOG);
+  return r + ' |' + LOGTEXT();
 }
 // present values of x below its length, rendered (used to read the engine's order after an implementation-defined sort)
 function SV(x,n){ var o = '', c = 0; for (var i = 0; i < n; i++) if (i in x) { o += (c++ ? '\u0001' : '') + R(x[i],1) } return o }
@@ -92,6 +96,7 @@ function MUT(m,arg){
   case 'pop': AP.pop.call(a); break;
   case 'shift': AP.shift.call(a); break;
   case 'unshift': AP.unshift.call(a,66); break;
+  case 'splice': AP.splice.call(a,0,arg); break;
   case 'setfar': a[arg] = 77; break;
   case 'set': a[arg] = 88; break;
   case 'del': delete a[arg]; break;
